@@ -360,7 +360,7 @@ def _rx_show(x):
     return rx_show(x)
 
 
-def string_policy(rng, uid, tags=('<', '>'), max_segs=2, wrapped=True, unbalanced=True):
+def string_policy(rng, uid, tags=('<', '>'), max_segs=2, wrapped=True, unbalanced=True, raising=True):
     table = []
     samples = {}
     fields = {}
@@ -381,7 +381,7 @@ def string_policy(rng, uid, tags=('<', '>'), max_segs=2, wrapped=True, unbalance
                         'CRules': s})
         fields[f] = els
         samples[f] = smp
-    ctx, ctx_samples = context_spec(rng)
+    ctx, ctx_samples = context_spec(rng, raising)
     p = {'uid': uid, 'effect': rng.choice(EFFECTS), 'subjects': fields['subjects'], 'resources': fields['resources'],
          'actions': fields['actions'], 'context': ctx, 'description': rng.choice([None, 'd%s' % uid, 'é']),
          'tags': list(tags)}
@@ -496,7 +496,7 @@ def scenario(rng, ck, n_policies=None, tags=('<', '>'), max_segs=2, illtyped=0.0
         if rule_kind:
             p, t, s, c = rule_policy(rng, uid, raising)
         else:
-            p, t, s, c = string_policy(rng, uid, tags, max_segs, unbalanced=unbalanced)
+            p, t, s, c = string_policy(rng, uid, tags, max_segs, unbalanced=unbalanced, raising=raising)
         if easy:
             if rng.random() < 0.8:
                 p['effect'] = 'allow'
